@@ -9,6 +9,7 @@ import Ww.Driver.C03
 import Ww.Driver.C13
 import Ww.Driver.Cook
 import Ww.Driver.Sched
+import Ww.Driver.Fault
 open Ww.Driver
 
 def dispatch (l : Line) : List Verdict :=
@@ -37,6 +38,8 @@ def dispatch (l : Line) : List Verdict :=
   | "retryreset" => handleRetryReset l
   | "ratelimit" => handleRateLimit l
   | "sched" => handleSched l
+  | "fault" => handleFault l
+  | "faultdry" => [Verdict.ok]
   | k => [Verdict.bad s!"unknown kind {k}"]
 
 partial def loop (h : IO.FS.Stream) (out : IO.FS.Stream) (i : Nat) : IO Unit := do
